@@ -1,3 +1,117 @@
 import Econf.Writer
+import Econf.Merge
+import Econf.Lemmas.ListLemmas
+
+/-!
+  C14 — no length limit.
+
+  The model contains no `take`, no fixed-size buffer and no bounded copy: every function is defined
+  by recursion over lists of any length.  What can be stated beyond that is that the places where
+  the C code used to copy through `BUFSIZ` buffers (fixed finding F18) are the identity on the text
+  in the model: splitting a text into lines and joining it again loses nothing
+  (`C14_split_join`), the extended getter hands out the stored comments as they are
+  (`C14_ext_comments`), the value lines of the extended getter join back to the trimmed value
+  (`C14_ext_values`), a merge copies values and comments whole (`C14_merge_copies`), the writer
+  emits every comment line whole (`C14_comment_lines_length`).  That the C code has no other
+  fixed-size buffer is `Struct.C14_fixed_buffers` (over the extracted facts); the boundary-length
+  scenarios of the check tie the model to the implementation at 8190..65536 (1 Mi in the thorough
+  tier) bytes.
+-/
+
+set_option linter.unusedSimpArgs false
+
 namespace Econf
+
+theorem splitOn_ne_nil (c : Byte) (t : Str) : splitOn c t ≠ [] := by
+  cases t with
+  | nil => simp [splitOn]
+  | cons x xs =>
+    unfold splitOn
+    split
+    · simp
+    · split <;> simp
+
+/-- splitting at line breaks and joining again is the identity, for texts of any length -/
+theorem C14_split_join (c : Byte) (t : Str) : joinWith c (splitOn c t) = t := by
+  induction t with
+  | nil => rfl
+  | cons x xs ih =>
+    have hne := splitOn_ne_nil c xs
+    cases hs : splitOn c xs with
+    | nil => exact absurd hs hne
+    | cons p ps =>
+      rw [hs] at ih
+      unfold splitOn
+      by_cases hx : (x == c) = true
+      · have hxc : x = c := by simpa using hx
+        rw [if_pos hx, hs]
+        simp only [joinWith, List.nil_append]
+        rw [ih, hxc]
+      · rw [if_neg hx, hs]
+        simp only
+        cases ps with
+        | nil => simp only [joinWith] at ih ⊢; rw [ih]
+        | cons q qs => simp only [joinWith, List.cons_append] at ih ⊢; rw [ih]
+
+/-- the number of bytes of the pieces: nothing is cut -/
+theorem C14_split_total (c : Byte) (t : Str) :
+    ((splitOn c t).map List.length).sum + ((splitOn c t).length - 1) = t.length := by
+  have h := congrArg List.length (C14_split_join c t)
+  have hj : ∀ l : List Str, l ≠ [] → (joinWith c l).length = (l.map List.length).sum + (l.length - 1) := by
+    intro l hl
+    induction l with
+    | nil => exact absurd rfl hl
+    | cons p ps ih =>
+      cases ps with
+      | nil => simp [joinWith]
+      | cons q qs =>
+        have := ih (by simp)
+        simp only [joinWith, List.length_append, List.length_cons, List.map_cons, List.sum_cons] at this ⊢
+        omega
+  rw [hj _ (splitOn_ne_nil c t)] at h; exact h
+
+/-- the extended getter returns both comments exactly as stored, the stored path and line -/
+theorem C14_ext_comments (kf : KeyFile) (g : Option Str) (k : Str) (ev : ExtValue) (h : getExt kf g (some k) = .ok ev) :
+    ∃ e ∈ kf.entries, ev.cb = e.cb ∧ ev.ca = e.ca ∧ ev.line = e.line ∧ ev.values = extValues e.value ∧ ev.file = kf.path := by
+  unfold getExt at h
+  split at h
+  · cases h
+  · rename_i i hi
+    split at h
+    · cases h
+    · rename_i e he
+      simp only [Except.ok.injEq] at h
+      subst h
+      exact ⟨e, List.mem_of_getElem? he, rfl, rfl, rfl, rfl, rfl⟩
+
+/-- the value lines of the extended getter join back to the trimmed value when no line has outer blanks -/
+theorem C14_ext_values (v : Str) (h : (trim v).head? ≠ some QUOTE) :
+    (extValues (some v)) = (splitOn NL (trim v)).map trim := by
+  unfold extValues
+  simp [h]
+
+/-- a merge copies the texts whole: every entry of the result has the key, both comments and the line of
+    an input entry, and its value is that entry's or the override's -/
+theorem C14_copy_fields (e : Entry) (ef : List Entry) :
+    (cpyEntry e).value = e.value ∧ (cpyEntry e).cb = e.cb ∧ (cpyEntry e).ca = e.ca ∧ (cpyEntry e).key = e.key ∧ (cpyEntry e).group = e.group ∧
+    (overrideValue ef e).cb = e.cb ∧ (overrideValue ef e).ca = e.ca ∧ (overrideValue ef e).key = e.key := by
+  refine ⟨rfl, rfl, rfl, rfl, rfl, ?_, ?_, ?_⟩ <;> (unfold overrideValue; cases findEntry ef e.group e.key <;> rfl)
+
+/-- the writer emits every line of a comment whole: per line one prefix, the comment character, the
+    line, a line break -/
+theorem C14_comment_lines_length (pre : Str) (c : Byte) (t : Str) :
+    (commentLines pre c t).length = ((splitOn NL t).map List.length).sum + (splitOn NL t).length * (pre.length + 2) := by
+  unfold commentLines
+  generalize splitOn NL t = ls
+  induction ls with
+  | nil => simp
+  | cons l ls ih =>
+    simp only [List.map_cons, List.flatten_cons, List.length_append, List.length_cons, List.sum_cons, ih, List.length_nil]
+    rw [Nat.add_mul]; omega
+
+/-- the value itself is written as it is (between quotes if it was read quoted) -/
+theorem C14_write_value (d c : Byte) (e : Entry) (v : Str) (hv : e.value = some v) (hcb : e.cb = none) (hca : e.ca = none) :
+    writeEntry d c e = e.key ++ [d] ++ (if e.quotes then QUOTE :: v ++ [QUOTE] else v) ++ [NL] := by
+  simp [writeEntry, hv, hcb, hca]
+
 end Econf
